@@ -34,6 +34,8 @@ MAX_SAMPLES = 12
 class Res:
     """Accumulator for one shard (and, merged, for one run)."""
 
+    INDEX = {}  # committed index of known failing inputs of the property being run (set by the runner)
+
     def __init__(self):
         self.states = 0  # distinct canonical inputs explored
         self.transitions = 0  # implementation calls compared with the reference model
@@ -43,6 +45,7 @@ class Res:
         self.samples = []
         self.extra = Counter()  # free-form counters (branch hits, ...)
         self.caps = []
+        self.fkeys = {}  # input identity -> (clause, class) of every violation that carries one
         self.keyset = set()  # 64-bit hashes of canonical states, for a global distinct count across shards
         self.digests = {}  # name -> hex digest; must coincide across PYTHONHASHSEED runs
         self.groups = {}  # key -> {signature: example}; merged across shards (canonical-equality classes)
@@ -51,11 +54,19 @@ class Res:
         if len(self.samples) < 3:
             self.samples.append(case)
 
-    def violation(self, clause, case, detail, finding=None):
+    def violation(self, clause, case, detail, finding=None, fkey=None):
+        """Record a violation.  ``finding``: name of a known-finding class (predicate); ``fkey``: stable identity of the
+        failing input (hash) looked up in the committed per-property index of known failing inputs."""
+        if fkey is not None:
+            if fkey in self.fkeys:
+                return  # the same input is reported once (first clause wins)
+            self.fkeys[fkey] = (clause, finding or "")
         self.nviol[(clause, finding or "")] += 1
+        if fkey is not None and fkey in Res.INDEX:
+            return  # a listed known failing input: counted, no replay file needed
         kept = sum(1 for v in self.violations if v["clause"] == clause and v["finding"] == finding)
         if kept < MAX_VIOL_PER_SHARD:
-            self.violations.append({"clause": clause, "input": case, "detail": detail, "finding": finding})
+            self.violations.append({"clause": clause, "input": case, "detail": detail, "finding": finding, "fkey": fkey})
 
     def merge(self, other: "Res"):
         self.states += other.states
@@ -65,6 +76,12 @@ class Res:
         self.extra.update(other.extra)
         self.caps.extend(other.caps)
         self.keyset |= other.keyset
+        for k, v in other.fkeys.items():
+            if k in self.fkeys:
+                # counted twice (two shards / hash seeds reported the same input): undo the double count
+                self.nviol[v] -= 1
+            else:
+                self.fkeys[k] = v
         for k, v in other.digests.items():
             self.digests.setdefault(k, v)
         for k, v in other.groups.items():
@@ -94,9 +111,34 @@ def load_known(prop_id):
     return out
 
 
+def index_path(prop_id):
+    return os.path.join(ROOT, "known_findings", f"{prop_id}.index.gz")
+
+
+def load_index(prop_id):
+    """Committed index of known failing inputs: {input hash: class}.  Never written by a check run."""
+    import gzip
+
+    path = index_path(prop_id)
+    out = {}
+    if os.path.exists(path):
+        with gzip.open(path, "rt") as f:
+            for line in f:
+                parts = line.split()
+                if parts:
+                    out[parts[0]] = parts[1] if len(parts) > 1 else ""
+    return out
+
+
+def fkey_of(*parts) -> str:
+    return hashlib.sha256(json.dumps(parts, sort_keys=True, default=str).encode()).hexdigest()[:14]
+
+
 def _work(args):
     prop_id, shard, tier, seed = args
     mod = importlib.import_module(f"mc.props.{prop_id}")
+    if not Res.INDEX:
+        Res.INDEX = load_index(prop_id)
     try:
         res = mod.work(shard, tier, seed)
     except Exception:  # a harness crash is never silently a pass
@@ -115,6 +157,7 @@ def _init_worker():
 
 def explore(prop_id, tier, seed, child=False):
     mod = importlib.import_module(f"mc.props.{prop_id}")
+    Res.INDEX = load_index(prop_id)
     shards = list(mod.shards(tier))
     total = Res()
     hash_seeds = getattr(mod, "HASH_SEEDS", None)
@@ -188,6 +231,7 @@ def main(argv=None):
     tier = os.environ.get("VERIF_TIER", "quick")
     replay = None
     child = None
+    record = False
     i = 1
     while i < len(argv):
         if argv[i] == "--tier":
@@ -199,6 +243,9 @@ def main(argv=None):
         elif argv[i] == "--child":
             child = argv[i + 1]
             i += 2
+        elif argv[i] == "--record-known":
+            record = True  # development only: add the failing inputs of this run to the committed index
+            i += 1
         else:
             raise SystemExit(f"unknown argument {argv[i]}")
     seed = int(os.environ.get("VERIF_SEED", "0") or 0)
@@ -237,14 +284,39 @@ def main(argv=None):
     wall = time.time() - t0
     known = load_known(prop_id)
 
+    index = load_index(prop_id)
+    if record:
+        import gzip
+
+        merged = dict(index)
+        for k, (clause, cls) in total.fkeys.items():
+            merged.setdefault(k, cls or clause)
+        os.makedirs(os.path.dirname(index_path(prop_id)), exist_ok=True)
+        with gzip.open(index_path(prop_id), "wt") as f:
+            for k in sorted(merged):
+                f.write(f"{k} {merged[k]}\n")
+        print(f"[{prop_id}] recorded {len(merged) - len(index)} new failing inputs ({len(merged)} in the index)")
+        index = merged
     known_seen = Counter()
     unknown = []
     for v in total.violations:
-        if v["finding"] and (v["clause"], v["finding"]) in known:
+        if v.get("fkey") and v["fkey"] in index:
+            continue
+        if v["finding"] and (v["clause"], v["finding"]) in known and not v.get("fkey"):
             continue
         unknown.append(v)
     n_unknown = 0
+    by_key = Counter()
+    for k, (clause, cls) in total.fkeys.items():
+        by_key[(clause, cls)] += 1
+        if k in index:
+            known_seen[("index", index[k] or cls or clause)] += 1
+        else:
+            n_unknown += 1
     for (clause, finding), c in sorted(total.nviol.items()):
+        c -= by_key.get((clause, finding), 0)  # those were judged through the index above
+        if c <= 0:
+            continue
         if finding and (clause, finding) in known:
             known_seen[(clause, finding)] += c
         else:
@@ -284,9 +356,10 @@ def main(argv=None):
         f"[{prop_id}/{tier}] states={total.states} transitions={total.transitions} "
         f"outcomes={dict(sorted(total.outcomes.items()))} wall={wall:.1f}s"
     )
+    classes = {e["predicate"]: e for e in json.load(open(os.path.join(ROOT, "known_findings.json"))).get("findings", []) if e.get("property") == prop_id}
     for (clause, finding), c in sorted(known_seen.items()):
-        e = known[(clause, finding)]
-        print(f"KNOWN-FINDING: property={prop_id} clause={clause} class={finding} cases={c}: {e['what']}")
+        e = known.get((clause, finding)) or classes.get(finding) or {"what": "listed failing input (see known_findings.json)"}
+        print(f"KNOWN-FINDING: property={prop_id} class={finding} cases={c}: {e['what']}")
     if unknown or n_unknown:
         shown = Counter()
         for v in unknown:
